@@ -23,7 +23,8 @@ from harness import c20_gen as G
 
 REQUIRED = ["body_erases", "merge_erases_partial", "merge_erases_not_full", "existing_kept",
             "inserted_from_stub_partial", "inserted_from_stub_not_full", "no_bare_any_partial",
-            "no_bare_any_not_full", "merge_fails_iff", "merge_error_witness", "fixed_witness_model"]
+            "no_bare_any_not_full", "merge_fails_iff", "merge_error_witness", "fixed_witness_model",
+            "entry_text_is_merge", "entry_frame", "entry_backup_original", "main_nondestructive"]
 
 # hand-written pairs run first (probes made while modelling; the known-finding witnesses are in W too)
 HAND_CASES = [
@@ -280,23 +281,71 @@ def gen_pairs(rng, n_prog, n_indep):
   return pairs, stats
 
 
+ENTRY_VARIANTS = [
+    # (label, driver query without the trailing changed flag)
+    ("merge_files PRINT", "entry files p -"),
+    ("merge_files DIFF", "entry files d -"),
+    ("merge_files OVERWRITE", "entry files o -"),
+    ("merge_files OVERWRITE backup=orig", "entry files o orig"),
+    ("merge_files OVERWRITE backup=''", "entry files o EMPTY"),
+    ("merge_files PRINT backup=orig", "entry files p orig"),
+    ("merge_files_src OVERWRITE backup=orig", "entry src o orig"),
+    ("merge_files_src DIFF backup=orig", "entry src d orig"),
+    ("merge-pyi file.py file.pyi", "entry main 0 0 -"),
+    ("merge-pyi --diff", "entry main 1 0 -"),
+    ("merge-pyi -i", "entry main 0 1 -"),
+    ("merge-pyi -i -b orig", "entry main 0 1 orig"),
+    ("merge-pyi -b orig", "entry main 0 0 orig"),
+    ("merge-pyi --diff -b orig", "entry main 1 0 orig"),
+    ("merge_tree", "entry files o -"),
+    ("merge_tree backup=orig", "entry files o orig"),
+]
+
+
+def entry_expectations(drv):
+  """{(label, changed)}: the Lean model's (Merge/Entry.lean) answer for every entry-point variant"""
+  qs = [(lab, ch, "%s %d" % (q, ch)) for lab, q in ENTRY_VARIANTS for ch in (0, 1)]
+  ans = drv.batch([q for _, _, q in qs])
+  return {(lab, ch): a for (lab, ch, _), a in zip(qs, ans)}
+
+
 def _entry_job(job):
   """One (program, stub, expected merge_sources output) through every file-based entry point of merge-pyi, in a
-  scratch directory.  -> list of mismatch strings."""
+  scratch directory, against the Lean model's answer on the symbolic disk {PY: orig, PYI: stub}.  -> mismatch strings."""
   import contextlib  # pylint: disable=g-import-not-at-top
   import io as _io  # pylint: disable=g-import-not-at-top
   import shutil  # pylint: disable=g-import-not-at-top
   from pytype.tools.merge_pyi import main as mp_main  # pylint: disable=g-import-not-at-top
   from pytype.tools.merge_pyi import merge_pyi  # pylint: disable=g-import-not-at-top
-  idx, py, pyi, want = job
+  idx, py, pyi, want, model = job
   base = os.path.join(common.BUILD, "c20", "entry-%d-%d" % (os.getpid(), idx))
   shutil.rmtree(base, ignore_errors=True)
   os.makedirs(os.path.join(base, "stubs"))
   pp, sp = os.path.join(base, "mod.py"), os.path.join(base, "stubs", "mod.pyi")
   bad = []
-  changed_want = want != py
-
-  def reset():
+  changed_want = int(want != py)
+  text = {"orig": py, "merged": want, "stub": pyi}
+  M = merge_pyi.Mode
+  stubs = os.path.join(base, "stubs")
+  calls = {
+      "merge_files PRINT": lambda: merge_pyi.merge_files(py_path=pp, pyi_path=sp, mode=M.PRINT),
+      "merge_files DIFF": lambda: merge_pyi.merge_files(py_path=pp, pyi_path=sp, mode=M.DIFF),
+      "merge_files OVERWRITE": lambda: merge_pyi.merge_files(py_path=pp, pyi_path=sp, mode=M.OVERWRITE),
+      "merge_files OVERWRITE backup=orig": lambda: merge_pyi.merge_files(py_path=pp, pyi_path=sp, mode=M.OVERWRITE, backup="orig"),
+      "merge_files OVERWRITE backup=''": lambda: merge_pyi.merge_files(py_path=pp, pyi_path=sp, mode=M.OVERWRITE, backup=""),
+      "merge_files PRINT backup=orig": lambda: merge_pyi.merge_files(py_path=pp, pyi_path=sp, mode=M.PRINT, backup="orig"),
+      "merge_files_src OVERWRITE backup=orig": lambda: merge_pyi.merge_files_src(pp, pyi, M.OVERWRITE, "orig"),
+      "merge_files_src DIFF backup=orig": lambda: merge_pyi.merge_files_src(pp, pyi, M.DIFF, "orig"),
+      "merge-pyi file.py file.pyi": lambda: mp_main.main(["merge-pyi", pp, sp]),
+      "merge-pyi --diff": lambda: mp_main.main(["merge-pyi", "--diff", pp, sp]),
+      "merge-pyi -i": lambda: mp_main.main(["merge-pyi", "-i", pp, sp]),
+      "merge-pyi -i -b orig": lambda: mp_main.main(["merge-pyi", "-i", "-b", "orig", pp, sp]),
+      "merge-pyi -b orig": lambda: mp_main.main(["merge-pyi", "-b", "orig", pp, sp]),
+      "merge-pyi --diff -b orig": lambda: mp_main.main(["merge-pyi", "--diff", "-b", "orig", pp, sp]),
+      "merge_tree": lambda: merge_pyi.merge_tree(py_path=base, pyi_path=stubs),
+      "merge_tree backup=orig": lambda: merge_pyi.merge_tree(py_path=base, pyi_path=stubs, backup="orig"),
+  }
+  for label, _ in ENTRY_VARIANTS:
     for f in os.listdir(base):
       if f != "stubs":
         os.unlink(os.path.join(base, f))
@@ -304,94 +353,85 @@ def _entry_job(job):
       f.write(py)
     with open(sp, "w") as f:
       f.write(pyi)
-
-  def run(label, fn):
-    reset()
-    buf = _io.StringIO()
+    buf, errbuf = _io.StringIO(), _io.StringIO()
+    ret, raised = None, None
     try:
-      with contextlib.redirect_stdout(buf):
-        ret = fn()
+      with contextlib.redirect_stdout(buf), contextlib.redirect_stderr(errbuf):
+        ret = calls[label]()
+    except SystemExit as e:
+      raised = "usage" if e.code == 2 else "SystemExit(%r)" % (e.code,)
     except BaseException as e:  # pylint: disable=broad-except
-      bad.append("%s raised %s: %s" % (label, type(e).__name__, str(e)[:200]))
-      return None, "", {}
+      raised = "%s: %s" % (type(e).__name__, str(e)[:200])
     files = {f: open(os.path.join(base, f)).read() for f in sorted(os.listdir(base)) if f != "stubs"}
-    return ret, buf.getvalue(), files
-
-  def expect(label, ret, files, want_files, want_ret=None):
-    if files != want_files:
-      for k in sorted(set(files) | set(want_files)):
-        if files.get(k) != want_files.get(k):
-          bad.append("%s: file %s is %r, merge_sources on the same pair gives %r" % (
-              label, k, (files.get(k) or "<absent>")[:400], (want_files.get(k) or "<absent>")[:400]))
-    if want_ret is not None and ret is not None and bool(ret) != want_ret:
-      bad.append("%s: returned changed=%r, expected %r" % (label, ret, want_ret))
-
-  M = merge_pyi.Mode
-  merged = {"mod.py": want}
-  same = {"mod.py": py}
-  with_bak = dict(merged, **({"mod.py.orig": py} if changed_want else {}))
-  ret, out, files = run("merge_files PRINT", lambda: merge_pyi.merge_files(py_path=pp, pyi_path=sp, mode=M.PRINT))
-  expect("merge_files PRINT", ret, files, same, changed_want)
-  if out != want + "\n":
-    bad.append("merge_files PRINT printed %r, merge_sources gives %r" % (out[:400], want[:400]))
-  ret, out, files = run("merge_files DIFF", lambda: merge_pyi.merge_files(py_path=pp, pyi_path=sp, mode=M.DIFF))
-  expect("merge_files DIFF", ret, files, same, changed_want)
-  ret, out, files = run("merge_files OVERWRITE",
-                        lambda: merge_pyi.merge_files(py_path=pp, pyi_path=sp, mode=M.OVERWRITE))
-  expect("merge_files OVERWRITE", ret, files, merged, changed_want)
-  ret, out, files = run("merge_files OVERWRITE backup",
-                        lambda: merge_pyi.merge_files(py_path=pp, pyi_path=sp, mode=M.OVERWRITE, backup="orig"))
-  expect("merge_files OVERWRITE backup=orig", ret, files, with_bak, changed_want)
-  ret, out, files = run("merge_files_src OVERWRITE backup",
-                        lambda: merge_pyi.merge_files_src(pp, pyi, M.OVERWRITE, "orig"))
-  expect("merge_files_src OVERWRITE backup=orig", ret, files, with_bak, changed_want)
-  ret, out, files = run("main (print)", lambda: mp_main.main(["merge-pyi", pp, sp]))
-  expect("merge-pyi file.py file.pyi", None, files, same)
-  if out != want + "\n":
-    bad.append("merge-pyi file.py file.pyi printed %r, merge_sources gives %r" % (out[:400], want[:400]))
-  ret, out, files = run("main --diff", lambda: mp_main.main(["merge-pyi", "--diff", pp, sp]))
-  expect("merge-pyi --diff", None, files, same)
-  ret, out, files = run("main -i", lambda: mp_main.main(["merge-pyi", "-i", pp, sp]))
-  expect("merge-pyi -i", None, files, merged)
-  ret, out, files = run("main -i -b orig", lambda: mp_main.main(["merge-pyi", "-i", "-b", "orig", pp, sp]))
-  expect("merge-pyi -i -b orig", None, files, with_bak)
-  ret, out, files = run("merge_tree", lambda: merge_pyi.merge_tree(py_path=base, pyi_path=os.path.join(base, "stubs")))
-  expect("merge_tree", None, files, merged)
-  if ret is not None and (ret[1] or (ret[0] == [pp]) != changed_want):
-    bad.append("merge_tree returned %r (changed expected: %r)" % (ret, changed_want))
-  ret, out, files = run("merge_tree backup",
-                        lambda: merge_pyi.merge_tree(py_path=base, pyi_path=os.path.join(base, "stubs"), backup="orig"))
-  expect("merge_tree backup=orig", None, files, with_bak)
+    files["stubs/mod.pyi"] = open(sp).read()
+    m = model[(label, changed_want)].split(" ")
+    if m[0] == "err":
+      if raised != m[1]:
+        bad.append("%s: model says the call is refused (%s), real: %s" % (label, m[1], raised or "returned"))
+      elif files != {"mod.py": py, "stubs/mod.pyi": pyi}:
+        bad.append("%s: refused, but files changed: %r" % (label, sorted(files)))
+      continue
+    if raised is not None:
+      bad.append("%s raised %s" % (label, raised))
+      continue
+    want_files = {}
+    for ent in m[3].split(";"):
+      k, v = ent.split("=")
+      want_files[{"PY": "mod.py", "PYI": "stubs/mod.pyi"}.get(k, k.replace("PY.", "mod.py."))] = text[v]
+    for k in sorted(set(files) | set(want_files)):
+      if files.get(k) != want_files.get(k):
+        bad.append("%s: file %s is %r, the model (with merge_sources' own output) gives %r" % (
+            label, k, (files.get(k) if k in files else "<absent>")[:400],
+            (want_files.get(k) if k in want_files else "<absent>")[:400]))
+    out = buf.getvalue()
+    if label.startswith("merge-pyi -i"):   # the command line reports what it did after an in-place merge
+      out = ""
+    if m[2].startswith("text:"):
+      if out != text[m[2][5:]] + "\n":
+        bad.append("%s printed %r, the model gives %r" % (label, out[:400], text[m[2][5:]][:400]))
+    elif m[2] == "-" and out.strip() and not label.startswith("merge_tree"):
+      bad.append("%s printed %r, the model prints nothing" % (label, out[:200]))
+    elif m[2] == "diff" and not out.strip():
+      bad.append("%s printed nothing, the model prints a diff" % label)
+    if label.startswith("merge_files") and bool(ret) != (m[1] == "1"):
+      bad.append("%s: returned changed=%r, model %s" % (label, ret, m[1]))
+    if label.startswith("merge_tree") and (ret[1] or (ret[0] == [pp]) != (m[1] == "1")):
+      bad.append("%s returned %r, model changed=%s" % (label, ret, m[1]))
   shutil.rmtree(base, ignore_errors=True)
   return bad
 
 
-def correspond_entry(res, modelled, reals, tier):
+def correspond_entry(res, modelled, reals, tier, drv):
   """K2: the file-based entry points (merge_files in its three modes with and without a backup extension,
-  merge_files_src, merge_tree, the merge-pyi command line) write / print exactly what merge_sources returns for the
-  same pair — the output the model and the oracle have just been compared with — and leave everything else alone."""
+  merge_files_src, merge_tree, the merge-pyi command line) against the Lean model Merge/Entry.lean instantiated with
+  merge_sources' own output for the pair — the output the applier model and the oracle have just been compared with:
+  same files with the same contents afterwards (program, backup, stub, nothing else), same stdout kind, same
+  `changed`, same refusals."""
+  model = entry_expectations(drv)
   jobs = []
   changed = with_existing = 0
   limit = 60 if tier == "quick" else 400
   for (kind, py, pyi), (out, err) in zip(modelled, reals):
     if err is not None or out is None:
       continue
-    existing = G.has_annotations(py) if hasattr(G, "has_annotations") else (": " in py or "->" in py)
+    existing = ": " in py or "->" in py
     if kind in ("hand", "witness") or len(jobs) < limit or (existing and with_existing < limit):
-      jobs.append((len(jobs), py, pyi, out))
+      jobs.append((len(jobs), py, pyi, out, model))
       changed += out != py
       with_existing += bool(existing)
   n = max(1, min(8, (os.cpu_count() or 2) // 2))
   with multiprocessing.Pool(n, initializer=_init_worker) as pool:
     outs = pool.map(_entry_job, jobs, chunksize=4)
   dis = []
-  for (_, py, pyi, want), bad in zip(jobs, outs):
+  for (_, py, pyi, want, _), bad in zip(jobs, outs):
     if bad:
-      dis.append({"py": py, "pyi": pyi, "what": "file-based entry point differs from merge_sources: " + bad[0],
+      dis.append({"py": py, "pyi": pyi, "what": "file-based entry point differs from the entry-point model: " + bad[0],
                   "all": bad[:6], "kind": "entry"})
-  res.cov.setdefault("distribution", {})
   res.cov["entry_points"] = {"pairs": len(jobs), "pairs_changed_by_the_merge": changed,
-                             "pairs_with_existing_annotations": with_existing, "entry_point_runs": 11 * len(jobs)}
+                             "pairs_unchanged_by_the_merge": len(jobs) - changed,
+                             "pairs_with_existing_annotations": with_existing,
+                             "variants": [v[0] for v in ENTRY_VARIANTS],
+                             "entry_point_runs": len(ENTRY_VARIANTS) * len(jobs)}
   return dis
 
 
@@ -451,7 +491,7 @@ def correspond(res, rng, tier):
       "bases, MergeError) and the property's oracle is evaluated on it wherever the theorems' guards hold; "
       "non-trivial = the merge changed the program; distinct = distinct (program, stub) texts" % (
           len(HAND_CASES), n_prog, n_indep))
-  disagreements += correspond_entry(res, modelled, reals, tier)
+  disagreements += correspond_entry(res, modelled, reals, tier, drv)
   stats.update(hist)
   stats["annotation_tokens_inserted"] = ins_total
   stats["K_wall_s"] = round(time.time() - t0, 1)
